@@ -1,7 +1,7 @@
 #!/usr/bin/env python3
 """Fast regression matrix that never touches /repo: every seeded change and every refactoring is applied
 to its own scratch copy of /repo HEAD (git archive) and checked with a prebuilt checker binary.
-usage: quick_matrix.py <binary> [--all] [--extra DIR] [Cxx ...]
+usage: quick_matrix.py <binary> [--all] [--write] [--extra DIR [--only-extra]] [--extra-seeds DIR] [Cxx ...]
 By default a patch is checked with its own property's check only (seeds: target or `retargeted`);
 --all runs all 20 checks on each patch.  Prints seeds that are not reported and refactorings that are."""
 import glob, json, os, subprocess, sys, tempfile, shutil
@@ -12,6 +12,8 @@ allp = '--all' in args
 if allp: args.remove('--all')
 write = '--write' in args
 if write: args.remove('--write')
+only_extra = '--only-extra' in args
+if only_extra: args.remove('--only-extra')
 extra = None
 if '--extra' in args:
     i = args.index('--extra'); extra = args[i+1]; del args[i:i+2]
@@ -39,6 +41,8 @@ if '--extra-seeds' in args:
     jobs = []
     for pf in sorted(glob.glob(xseeds + '/C*/*/patch.diff')):
         n = 'x-' + '-'.join(pf.split('/')[-3:-1]); jobs.append(('seed', n, pf.split('/')[-3], pf))
+if only_extra:
+    jobs = [j for j in jobs if j[1].startswith('x-')]
 if only:
     jobs = [j for j in jobs if allp and True or j[2] in only] if not allp else jobs
     if allp: props = only
